@@ -140,7 +140,7 @@ class C17(Prop):
     fuzz_runs = 20000
     exhaustive_quick = True
     exhaustive_thorough = True
-    floors = {'zero_processors': 0.1, 'multi_metric': 0.4, 'via_protobuf': 0.3}
+    floors = {'zero_processors': 0.1, 'multi_metric': 0.2, 'via_protobuf': 0.3}
 
     def enumerate(self, tier, shard=0, nshards=1):
         rows = list(itertools.product(TYPES, EXPR_KINDS.values(), LABEL_KINDS, [0, 1, 2, 3]))
